@@ -49,8 +49,8 @@ Print Assumptions C07_chunks_partition_sampling.
 
 (** windows_disjoint_cover + values_equal_sequential + cursors_exact, stable variants, exact splitting:
     all tuples of sorted sequences (empty ones allowed), all size <= total, all p >= 1. *)
-Theorem C07_parallel_exact_stable : forall (A : Type) (ltb : A -> A -> bool)
-    (partition : list (list A) -> Z -> list nat)
+Theorem C07_parallel_exact_stable : forall (A : Type) (ltb : A -> A -> bool), SWO ltb ->
+  forall (partition : list (list A) -> Z -> list nat)
     (seqmerge : bool -> bool -> list (list A) -> nat -> list A * list nat)
     (seqs : list (list A)) (size p os : nat),
   Forall (fun l => Sorted (sorted_rel ltb) l) seqs -> size <= total seqs -> 1 <= p ->
@@ -60,17 +60,39 @@ Theorem C07_parallel_exact_stable : forall (A : Type) (ltb : A -> A -> bool)
 Proof. exact @pmwm_base_exact_stable. Qed.
 Print Assumptions C07_parallel_exact_stable.
 
-(** the same for sampling splitting; size = total is an explicit hypothesis: sampling with size < total
-    is the recorded finding `sampling-size-lt-total` (see C07_sampling_size_lt_total_refuted). *)
+(** the same for MWMSA_SAMPLING, every size <= total: the sampling splitter runs when size = total, and a
+    proper prefix is served by the exact splitter (the repaired selection in parallel_multiway_merge_base;
+    the shipped selection is refuted in C07_sampling_size_lt_total_refuted). *)
 Theorem C07_parallel_sampling_stable : forall (A : Type) (ltb : A -> A -> bool), SWO ltb ->
   forall (partition : list (list A) -> Z -> list nat)
     (seqmerge : bool -> bool -> list (list A) -> nat -> list A * list nat)
     (seqs : list (list A)) (size p os : nat),
-  Forall (fun l => Sorted (sorted_rel ltb) l) seqs -> size = total seqs -> 1 <= p -> 1 <= os ->
+  Forall (fun l => Sorted (sorted_rel ltb) l) seqs -> size <= total seqs -> 1 <= p -> 1 <= os ->
   seqmerge_stable_spec ltb seqmerge ->
+  partition_spec ltb partition (filter (@nonempty A) seqs) size ->
   parallel_result ltb seqs size p (pmwm_base ltb partition seqmerge true true seqs size p os).
 Proof. exact @pmwm_base_sampling_stable. Qed.
 Print Assumptions C07_parallel_sampling_stable.
+
+(** the dispatch: under MWMSA_SAMPLING a proper prefix runs exactly the MWMSA_EXACT code (both variants) *)
+Theorem C07_sampling_prefix_is_exact : forall (A : Type) (ltb : A -> A -> bool)
+    (partition : list (list A) -> Z -> list nat)
+    (seqmerge : bool -> bool -> list (list A) -> nat -> list A * list nat)
+    stable (seqs : list (list A)) (size p os : nat),
+  size <> total seqs ->
+  pmwm_base ltb partition seqmerge stable true seqs size p os =
+  pmwm_base ltb partition seqmerge stable false seqs size p os.
+Proof. exact @pmwm_base_sampling_prefix. Qed.
+Print Assumptions C07_sampling_prefix_is_exact.
+
+(** both splitters (MWMSA_SAMPLING with the dispatch) deliver what the theorems above and below need *)
+Theorem C07_bounds_ok : forall (A : Type) (ltb : A -> A -> bool), SWO ltb ->
+  forall (partition : list (list A) -> Z -> list nat) sampling (seqs : list (list A)) (size p os : nat),
+  Forall (fun l => Sorted (sorted_rel ltb) l) seqs -> size <= total seqs -> 1 <= p -> (sampling = true -> 1 <= os) ->
+  partition_spec ltb partition (filter (@nonempty A) seqs) size ->
+  bounds_ok ltb partition sampling seqs size p os.
+Proof. exact @bounds_ok_all. Qed.
+Print Assumptions C07_bounds_ok.
 
 (** Unstable variants — PARTIAL.  Full statement wanted (property text: "write the same sequence of element
     values as the sequential merge"):
@@ -78,7 +100,8 @@ Print Assumptions C07_parallel_sampling_stable.
     Proved below: the windows tile [0,size) (hence one writer per position), the output is a permutation of
     firstn size (smerge seqs) and of exactly the prefixes the cursors passed, cursors within the sequences
     with sum = size, thread count = min p total -- for both splittings ([bounds_ok] is what
-    C07_chunks_partition_exact / _sampling establish).  Missing conjunct: Sorted (output ts). *)
+    C07_bounds_ok establishes for every size <= total).  Sorted (output ts) is C07_parallel_unstable_sorted
+    below; missing: the step from (sorted, permutation of the merge prefix) to pointwise equivalence. *)
 Theorem C07_parallel_unstable_partial : forall (A : Type) (ltb : A -> A -> bool)
     (partition : list (list A) -> Z -> list nat)
     (seqmerge : bool -> bool -> list (list A) -> nat -> list A * list nat)
@@ -89,6 +112,23 @@ Theorem C07_parallel_unstable_partial : forall (A : Type) (ltb : A -> A -> bool)
   parallel_result_unstable ltb seqs size p (pmwm_base ltb partition seqmerge false sampling seqs size p os).
 Proof. exact @pmwm_base_unstable_partial. Qed.
 Print Assumptions C07_parallel_unstable_partial.
+
+(** Unstable variants, sortedness: the concatenated output is sorted, given that each sequential unstable merge
+    (C05) delivers a sorted permutation of the sorted sequences it is given in full.  With the permutation
+    conjunct above this fixes the sequence of keys written (the sorted arrangement of the first [size]
+    elements of the stable merge); the final step "pointwise equivalent to firstn size (smerge seqs)" is
+    not formalised, which is why C07_parallel_unstable_partial keeps its name. *)
+Theorem C07_parallel_unstable_sorted : forall (A : Type) (ltb : A -> A -> bool)
+    (partition : list (list A) -> Z -> list nat)
+    (seqmerge : bool -> bool -> list (list A) -> nat -> list A * list nat)
+    sampling (seqs : list (list A)) (size p os : nat),
+  Forall (fun l => Sorted (sorted_rel ltb) l) seqs -> size <= total seqs -> 1 <= p ->
+  seqmerge_unstable_sorted_spec ltb seqmerge ->
+  bounds_ok ltb partition sampling seqs size p os ->
+  forall r, pmwm_base ltb partition seqmerge false sampling seqs size p os = Some r ->
+            Sorted (sorted_rel ltb) (output (p_threads r)).
+Proof. exact @pmwm_base_unstable_sorted. Qed.
+Print Assumptions C07_parallel_unstable_sorted.
 
 (** one_writer_per_position: contiguous windows give every position of [from,to) exactly one writer. *)
 Theorem C07_one_writer_per_position : forall (A : Type) (ts : list (@thread_res A)) (from to pos : nat),
@@ -134,7 +174,7 @@ Theorem C07_instance : forall p, 1 <= p ->
 Proof. exact ex_exact_instance. Qed.
 Print Assumptions C07_instance.
 
-(** the shipped code (tlx 704fd0b): witnesses of the two repaired defects and of the recorded finding *)
+(** the shipped code (tlx 704fd0b): witnesses of the three repaired defects *)
 Theorem C07_equally_split_shipped_refuted :
   equally_split_shipped 0 3 = [0; -1; -1; 0]%Z /\ equally_split 0 3 = [0; 0; 0; 0]%Z.
 Proof. exact equally_split_shipped_refuted. Qed.
@@ -147,8 +187,10 @@ Proof. exact exact_last_shipped_refuted. Qed.
 Print Assumptions C07_exact_last_shipped_refuted.
 
 Theorem C07_sampling_size_lt_total_refuted :
-  (exists r, pmwm_base Nat.ltb (partition_ref Nat.ltb) (seqmerge_ref Nat.ltb) true true [s10; s10; s10] 10 3 10 = Some r /\
+  (exists r, pmwm_base_shipped Nat.ltb (partition_ref Nat.ltb) (seqmerge_ref Nat.ltb) true true [s10; s10; s10] 10 3 10 = Some r /\
              p_cursors r = [10; 10; 10] /\ p_ret r = 10) /\
-  pmwm_base Nat.ltb (partition_ref Nat.ltb) (seqmerge_ref Nat.ltb) true true [[2; 5]; [3]; [2]] 2 5 10 = None.
+  pmwm_base_shipped Nat.ltb (partition_ref Nat.ltb) (seqmerge_ref Nat.ltb) true true [[2; 5]; [3]; [2]] 2 5 10 = None /\
+  (exists r, pmwm_base Nat.ltb (partition_ref Nat.ltb) (seqmerge_ref Nat.ltb) true true [s10; s10; s10] 10 3 10 = Some r /\
+             p_cursors r = [4; 3; 3] /\ p_ret r = 10).
 Proof. exact sampling_size_lt_total_refuted. Qed.
 Print Assumptions C07_sampling_size_lt_total_refuted.
